@@ -18,12 +18,12 @@ def run_c15(ctx):
     for pid in ("C12", "C13"):
         kind = p_list.KIND[pid]
         exe = build(ctx, "drv_" + kind[0], kind[3], kind[4])
-        p_list.closure(ctx, kind, exe, kind[0], [1, 2, 1, 2] if q else [2, 1, 2, 1, 3], 3 if q else 2, props)
+        p_list.closure(ctx, kind, exe, kind[0], [1, 2, 1, 2] if q else [2, 1, 2, 1, 3], 2, props)      # (three lists: C12 / C13's own checks)
     exe = build(ctx, "drv_map", "drv_map.c", p_map.LIB, wrap=p_map.WRAP)
     p_map.closure(ctx, exe, "map", 3 if q else 4, props)
     # a map cleared in the middle of a random history (after erases, failed inserts, ...) and used again: whatever the
     # object keeps besides the tree must be as good as new too
-    for nk, steps in ((6, 2500 if q else 20000), (24, 2500 if q else 20000)):
+    for nk, steps in ((6, 1500 if q else 20000), (24, 1000 if q else 20000)):
         impl_phase(ctx, f"rand-map{nk}", exe, ["random", ctx.seed, steps, 4], [nk, 1, 1], "TraceMap", p_map.kdef(nk), p_map.consts(nk), props)
     # beyond the closure: clear in the middle of random histories, elements reused afterwards
     rng = random.Random(ctx.seed)
